@@ -6,6 +6,7 @@ import (
 	"fmt"
 	"io"
 	"math"
+	"math/rand"
 	"reflect"
 	"unsafe"
 
@@ -45,7 +46,7 @@ var encTable = map[string]encFactory{
 	"P11": mkEnc[P11](), "P12": mkEnc[P12](), "P13": mkEnc[P13](), "P14": mkEnc[P14](), "P15": mkEnc[P15](),
 	"P16": mkEnc[P16](), "P17": mkEnc[P17](), "P18": mkEnc[P18](), "P19": mkEnc[P19](), "P20": mkEnc[P20](),
 	"P21": mkEnc[P21](), "P22": mkEnc[P22](), "P23": mkEnc[P23](), "P24": mkEnc[P24](), "P25": mkEnc[P25](),
-	"P26": mkEnc[P26](),
+	"P26": mkEnc[P26](), "P27": mkEnc[P27](), "P28": mkEnc[P28](), "P29": mkEnc[P29](),
 }
 
 // ---- known-finding shapes: values the schema cannot express ----------------
@@ -258,11 +259,32 @@ func runEncoderProps(r *Run, prop string) {
 		nvals := r.Rng.Intn(9)
 		if i%7 == 0 {
 			nvals = 0
+		} else if nvals < 3 && i%2 == 0 {
+			nvals += 3
 		}
 		var vals []reflect.Value
 		shape := ""
+		// in one file of three every second record is the zero value of the type (nil pointers, empty
+		// strings, slices and maps, zero numbers) between two rich ones: nothing of a record may show
+		// in the next
+		sparse := i%3 == 1
+		if sparse && nvals < 4 {
+			nvals = 4 + r.Rng.Intn(3)
+		}
+		if sparse {
+			r.Count("sparse-file")
+		}
 		for k := 0; k < nvals; k++ {
 			v := genValue(r.Rng, g)
+			if sparse && k%2 == 1 {
+				v = reflect.New(rt).Elem()
+			}
+			if !sparse && k%3 == 2 {
+				// one omitempty field empty, its neighbours as they came
+				if zeroOneOmitField(r.Rng, g, v) {
+					r.Count("one-empty-omitempty-field")
+				}
+			}
 			zeroExcluded(g, v)
 			normaliseOmitZero(g, v, false)
 			if sk := findingShape(g, v); sk != "" && shape == "" {
@@ -469,6 +491,37 @@ func checkIndependentReader(r *Run, e poolEntry, g *GT, s avro.Schema, vals []re
 	}
 }
 
+// zeroOneOmitField empties one omitempty field of v (at the top level, or else inside a nested
+// struct field) and leaves the rest: what sits next to an empty field must not decide how it is written.
+func zeroOneOmitField(rng *rand.Rand, g *GT, v reflect.Value) bool {
+	u := g.under()
+	if u == nil || u.Kind != "struct" || v.Kind() != reflect.Struct {
+		return false
+	}
+	var cands, nested []int
+	for i, f := range u.Fields {
+		if !f.Exported || i >= v.NumField() || !v.Field(i).CanSet() {
+			continue
+		}
+		if fieldOmitEmpty(f) {
+			cands = append(cands, i)
+		} else if fu := f.T.under(); fu != nil && fu.Kind == "struct" {
+			nested = append(nested, i)
+		}
+	}
+	if len(cands) > 0 {
+		i := cands[rng.Intn(len(cands))]
+		v.Field(i).Set(reflect.Zero(v.Field(i).Type()))
+		return true
+	}
+	for _, i := range nested {
+		if zeroOneOmitField(rng, u.Fields[i].T, v.Field(i)) {
+			return true
+		}
+	}
+	return false
+}
+
 // dynamicRoundTrips: random struct types (reflect.StructOf) through
 // SchemaForType + Schema.Codec + Write + Read, the path the Encoder and ReadFile use.
 func dynamicRoundTrips(r *Run) {
@@ -496,6 +549,9 @@ func dynamicRoundTrips(r *Run) {
 		r.Count("dyn/ok")
 		for k := 0; k < 3; k++ {
 			v := genValue(r.Rng, g)
+			if k == 2 {
+				zeroOneOmitField(r.Rng, g, v)
+			}
 			zeroExcluded(g, v)
 			normaliseOmitZero(g, v, false)
 			shape := findingShape(g, v)
